@@ -73,8 +73,10 @@ Sources(st) ==
 
 IsQuery(st) == st.op \in {"leq", "entails", "isbot", "istop"}
 
-(* judgement of domain d's recorded outcome `rec` for step st, given the new witness sets Wn *)
-Judge(st, rec, Wn) ==
+(* judgement of a domain's recorded outcome `rec` for step st, given the new witness sets Wn.
+   exact = 1 when the domain's projection is a faithful image of its meaning (tools/hist.py):
+   only then may two projections be compared for EQUALITY (C16 judgements). *)
+Judge(st, rec, Wn, exact) ==
   IF st.op = "leq" THEN
        \* yes  =>  everything described by a is described by b
        IF rec.ans = 1 /\ ~Covers(rec.ob, Wn[st.a]) THEN "leq-yes-but-not-included"
@@ -91,12 +93,18 @@ Judge(st, rec, Wn) ==
   ELSE IF st.op = "top" /\ rec.o.top = 0 THEN "make_top-not-is_top"
   ELSE IF st.op = "bottom" /\ rec.o.bot = 0 THEN "make_bottom-not-is_bottom"
   \* C16: the step must not change what any OTHER register describes (compared on the box)
-  ELSE IF \E q \in DOMAIN rec.oth : \E s \in Box : InGamma(s, rec.oth[q].p) # InGamma(s, rec.oth[q].o)
+  ELSE IF exact = 1 /\ \E q \in DOMAIN rec.oth : \E s \in Box : InGamma(s, rec.oth[q].p) # InGamma(s, rec.oth[q].o)
        THEN "other-register-changed"
   \* C16: stuttering steps must not change the meaning of the register itself
-  ELSE IF st.op \in {"normalize", "minimize", "query"} /\ \E s \in Box : InGamma(s, rec.p) # InGamma(s, rec.o)
+  ELSE IF exact = 1 /\ st.op \in {"normalize", "minimize", "query"} /\ \E s \in Box : InGamma(s, rec.p) # InGamma(s, rec.o)
        THEN "stutter-changed-meaning"
   ELSE "ok"
+
+(* a concrete state that is certainly reachable but not described (for the replay artefact) *)
+WitnessOf(st, rec, Wn) ==
+  IF st.op = "leq" THEN (IF \E s \in Wn[st.a] : ~InGamma(s, rec.ob) THEN CHOOSE s \in Wn[st.a] : ~InGamma(s, rec.ob) ELSE <<>>)
+  ELSE IF st.r # 0 /\ "o" \in DOMAIN rec /\ \E s \in Wn[st.r] : ~InGamma(s, rec.o)
+       THEN CHOOSE s \in Wn[st.r] : ~InGamma(s, rec.o) ELSE <<>>
 
 ----------------------------------------------------------------------------
 (* Known findings (DESIGN.md 2.4): a failing step that matches the signature of
@@ -118,6 +126,21 @@ SigMatches(sig, dom, st) ==
 KnownFor(dom, st) == {k \in DOMAIN KnownSigs : SigMatches(KnownSigs[k].sig, dom, st)}
 
 ----------------------------------------------------------------------------
+(* C16(iii): paired replays of the SAME history -- a domain and the same domain observed in place
+   ("#s": every projection is taken on the register itself, never on a copy), or a domain and its
+   type-erased wrapper -- must describe the same thing after every step.  Widening may legitimately
+   depend on whether its left operand was normalised by a query, so equality is not demanded from
+   the first extrapolation step of a history on (DESIGN.md, C16). *)
+Extrapolates(st) == st.op \in {"widen", "widenjoin", "narrow"}
+NoExtrapolationUpTo(k) == \A q \in 1..k : ~Extrapolates(Tr.steps[q])
+SameMeaning(o1, o2) == o1 = o2 \/ \A s \in Box : InGamma(s, o1) = InGamma(s, o2)
+PairJudge(st, k) ==
+  IF IsQuery(st) \/ ~NoExtrapolationUpTo(k) THEN {}
+  ELSE {p \in {q \in DOMAIN Tr.pairs : <<Tr.pairs[q][1], st.r>> \notin bad /\ <<Tr.pairs[q][2], st.r>> \notin bad
+                                         /\ \A z \in Sources(st) : <<Tr.pairs[q][1], z>> \notin bad /\ <<Tr.pairs[q][2], z>> \notin bad} :
+          LET a == Tr.obs[Tr.pairs[p][1]].steps[k]  b == Tr.obs[Tr.pairs[p][2]].steps[k]
+          IN ~SameMeaning(a.o, b.o)}
+
 Init == /\ t \in DOMAIN Traces
         /\ l = 0
         /\ W = [r \in 1..Traces[t].nregs |-> LET kinds == Traces[t].kinds IN BoxInit(kinds)]
@@ -129,20 +152,23 @@ Step ==
   /\ LET st == Tr.steps[l + 1]
          Wn == IF IsQuery(st) THEN W ELSE [W EXCEPT ![st.r] = Target(st)]
          tainted(d) == \E q \in Sources(st) : <<d, q>> \in bad
+         pj == PairJudge(st, l + 1)     \* evaluated once per step (C16 paired replays)
          v == [d \in Doms |->
                  IF Tr.obs[d].err # 0 THEN "skip"
                  ELSE IF tainted(d) THEN "skip"
-                 ELSE LET j == Judge(st, Tr.obs[d].steps[l + 1], Wn)
+                 ELSE LET j0 == Judge(st, Tr.obs[d].steps[l + 1], Wn, Tr.obs[d].exact)
+                          j == IF j0 = "ok" /\ \E p \in pj : Tr.pairs[p][2] = d
+                                 THEN "differs-from-paired-replay" ELSE j0
                       IN IF j = "ok" THEN "ok"
                          ELSE IF KnownFor(Tr.obs[d].dom, st) # {}
                            THEN IF PrintT(<<"KNOWN", KnownSigs[CHOOSE k \in KnownFor(Tr.obs[d].dom, st) : TRUE].id,
                                             Tr.id, l + 1, Tr.obs[d].dom, j>>) THEN "known" ELSE "known"
-                           ELSE IF PrintT(<<"FAIL", Tr.id, l + 1, Tr.obs[d].dom, j>>) THEN j ELSE j]
+                           ELSE IF PrintT(<<"FAIL", Tr.id, l + 1, Tr.obs[d].dom, j, WitnessOf(st, Tr.obs[d].steps[l + 1], Wn)>>) THEN j ELSE j]
      IN /\ W' = Wn
         /\ verdict' = v
         /\ bad' = IF IsQuery(st) THEN bad
                   ELSE (bad \ {<<d, st.r>> : d \in Doms})
-                       \cup {<<d, st.r>> : d \in {e \in Doms : tainted(e) \/ v[e] \notin {"ok", "skip"}}}
+                       \cup {<<d, st.r>> : d \in {e \in Doms : tainted(e) \/ verdict'[e] \notin {"ok", "skip"}}}
   /\ l' = l + 1
   /\ UNCHANGED t
 
